@@ -112,10 +112,10 @@ prop('C09', units=['ord', 'costs', 'agg', 'bk', 'rnd'], level='proof',
      witnesses=['D2a', 'D2b', 'D2c'])
 
 prop('C10', units=['summary', 'bk'], level='proof',
-     technique='Verus: necessary conditions only - get_summary_range_delta_indicies (window of every later loss sale lies strictly after the last summarised settlement), make_simple_summary_txs (Buy reproduces balance and cost base); round trip watched by witnesses',
+     technique='Verus: necessary conditions - get_summary_range_delta_indicies (window of every later loss sale strictly after the last summarised settlement), make_simple_summary_txs (Buy reproduces balance and cost base), make_annual_gains_summary_txs (base Buy of balance + #years, one 1-share Sell per year realising that year net gain), make_summary_txs (kept rows re-emitted unchanged with explicit unforced superficial losses, after the generated rows); round trip watched by witnesses',
      level_text='Deductive proof (Verus) of two necessary conditions of the round trip, for all delta lists and dates. The round trip itself (two runs of the whole pipeline) is not expressible as a function contract; annual-gains mode is not verified and has the known finding D16.',
      level_note=BK_NOTE + ' sorted_by_settle(deltas) at the call is assumed.',
-     not_covered=['equality of all later figures (whole-pipeline statement)', 'make_summary_txs, annual-gains variant, aggregate summary'],
+     not_covered=['equality of all later figures (whole-pipeline statement)', 'make_aggregate_summary_txs (per-security glue)', 'multiset of generated rows after the sort inside make_summary_txs (only their count position and read index are stated)'],
      witnesses=['D3', 'D16'])
 
 prop('C12', units=['fx', 'bk'], level='proof',
